@@ -236,3 +236,72 @@ Proof.
   - split; [discriminate|]. rewrite largest_cons. reflexivity.
   - split; [discriminate|]. rewrite largest_cons. reflexivity.
 Qed.
+
+(* ---- the list stays ascending with a gap between neighbouring intervals ---- *)
+From Coq Require Import Sorting.Sorted.
+Definition Asc (l : ranges) : Prop := StronglySorted (fun r1 r2 => snd r1 + 1 < fst r2) l.
+
+Lemma ins_fst : forall l pn r, In r (ins pn l) -> fst r = pn \/ exists r0, In r0 l /\ fst r0 = fst r.
+Proof.
+  induction l as [|[a b] t IH]; intros pn r Hin.
+  - cbn in Hin. destruct Hin as [<-|[]]. left; reflexivity.
+  - revert Hin. ins_cases pn a b; intros Hin.
+    + destruct Hin as [<-|Hin]; [left; reflexivity|right; exists r; auto].
+    + destruct Hin as [<-|Hin]; [left; reflexivity|right; exists r; split; [right; assumption|reflexivity]].
+    + right; exists r; auto.
+    + destruct t as [|[c d] t'].
+      * destruct Hin as [<-|[]]. right. exists (a, b). split; [left; reflexivity|reflexivity].
+      * destruct (c =? pn + 1).
+        -- destruct Hin as [<-|Hin]; [right; exists (a, b); split; [left; reflexivity|reflexivity]|].
+           right; exists r; split; [right; right; assumption|reflexivity].
+        -- destruct Hin as [<-|Hin]; [right; exists (a, b); split; [left; reflexivity|reflexivity]|].
+           right; exists r; split; [right; assumption|reflexivity].
+    + destruct Hin as [<-|Hin]; [right; exists (a, b); split; [left; reflexivity|reflexivity]|].
+      destruct (IH _ _ Hin) as [E|[r0 [Hr0 E]]]; [left; assumption|right; exists r0; split; [right; assumption|assumption]].
+Qed.
+
+Lemma Asc_cons : forall a b t, Asc ((a, b) :: t) <-> Asc t /\ Forall (fun r => b + 1 < fst r) t.
+Proof.
+  intros. unfold Asc. split.
+  - intros H. inversion H; subst. auto.
+  - intros [H1 H2]. constructor; assumption.
+Qed.
+
+Lemma ins_asc : forall l pn, WF l -> Asc l -> Asc (ins pn l).
+Proof.
+  induction l as [|[a b] t IH]; intros pn Hw Ha.
+  - cbn. constructor; constructor.
+  - apply WF_cons in Hw as [Hab Hwt]. apply Asc_cons in Ha as [Hat Hall].
+    ins_cases pn a b.
+    + apply Asc_cons. split; [apply Asc_cons; auto|]. constructor; [cbn [fst snd]; lia|].
+      eapply Forall_impl; [|exact Hall]. cbn [fst snd]. intros r Hr. lia.
+    + apply Asc_cons. auto.
+    + apply Asc_cons. auto.
+    + destruct t as [|[c d] t'].
+      * apply Asc_cons. split; constructor.
+      * apply WF_cons in Hwt as [Hcd Hwt']. apply Asc_cons in Hat as [Hat' Hall'].
+        apply Forall_cons_iff in Hall as [Hbc Hall2]. cbn [fst] in Hbc.
+        destruct (N.eqb_spec c (pn + 1)).
+        -- apply Asc_cons. auto.
+        -- apply Asc_cons. split; [apply Asc_cons; auto|]. constructor; [cbn [fst snd]; lia|].
+           eapply Forall_impl; [|exact Hall']. cbn [fst snd]. intros r Hr. lia.
+    + apply Asc_cons. split; [apply IH; assumption|].
+      apply Forall_forall. intros r Hr. apply ins_fst in Hr as [->|[r0 [Hr0 <-]]]; [lia|].
+      rewrite Forall_forall in Hall. apply Hall; assumption.
+Qed.
+
+Lemma remove_upto_asc : forall l x, Asc l -> Asc (remove_upto x l).
+Proof.
+  induction l as [|[a b] t IH]; intros x Ha; [constructor|].
+  apply Asc_cons in Ha as [Hat Hall]. cbn [remove_upto].
+  destruct (b <=? x); [apply IH; assumption|]. destruct (a <=? x); apply Asc_cons; auto.
+Qed.
+
+Lemma ipn_asc : forall l pn lim, WF l -> Asc l -> len l <= lim -> 1 <= lim -> Asc (insert_packet_number pn l lim).
+Proof.
+  intros l pn lim Hw Ha Hl Hlim.
+  destruct (ipn_cases l pn lim Hl Hlim) as [E|[(a & b & t & -> & Hb & E)|(a & b & t & -> & Hb & E)]]; rewrite E.
+  - apply ins_asc; assumption.
+  - apply WF_cons in Hw as [_ Hwt]. apply Asc_cons in Ha as [Hat _]. apply ins_asc; assumption.
+  - assumption.
+Qed.
